@@ -177,6 +177,10 @@ type fidRef struct {
 	// The node above will be closed only when refs reaches zero.
 	refs int64
 
+	// openMu serializes Tlopen on this fid, so that File.Open is called
+	// at most once: opened is tested and set under it.
+	openMu sync.Mutex
+
 	// opened indicates whether this has been opened already.
 	//
 	// This is updated in handlers.go.
